@@ -229,11 +229,9 @@ class Chunk:
             target_size_mb=self.target_size_mb,
         )
 
-        if self.promised_continuity:
-            subruns_first_chunk, subruns_second_chunk = _split_runs_in_chunk(self.subruns, t)
-        else:
-            # The split will not update the subruns or superrun.
-            subruns_first_chunk = subruns_second_chunk = self.subruns
+        # Each half only keeps the (parts of the) subruns on its side of t, also when the chunk
+        # itself starts before its first subrun or ends after its last one.
+        subruns_first_chunk, subruns_second_chunk = _split_runs_in_chunk(self.subruns, t)
 
         superrun_first_chunk, superrun_second_chunk = _split_runs_in_chunk(self.superrun, t)
         # If the superrun is split and the fragment cover only one run,
